@@ -163,6 +163,21 @@ pub fn gen(ctx: &Ctx, rng: &mut Rng, out: &mut Vec<String>) {
             for (cmd, args) in [("view", "-"), ("fold", "-"), ("stat", "-s sum")] { out.push(format!("pn.any\t{cmd}\t{args}\t{}", hex(&file))); }
         }
     }
+    // npy headers declaring degenerate shapes (zero axes as numpy writes a scalar, an empty axis list, a zero-length axis, one
+    // element) x every statistic separately (each has its own shape / dimension error message) and the view / fold options
+    for (shape_s, body_len) in [("()", 8usize), ("()", 0), ("(,)", 8), ("(0,)", 0), ("(1,)", 8), ("(1, 1)", 8), ("(0, 0)", 0)] {
+        let d = format!("{{'descr': '<f8', 'fortran_order': False, 'shape': {shape_s}, }}");
+        let mut body = vec![0u8; body_len]; if body_len == 8 { body.copy_from_slice(&7.0f64.to_le_bytes()); }
+        let file = io::frame(1, 0, &d, &body, rng, true);
+        for k in stat::KINDS { out.push(format!("pn.any\tstat\t-s {k}\t{}", hex(&file))); }
+        for (cmd, args) in [("view", "-"), ("view", "-O npy"), ("view", "--mask-monomorphic -n"), ("view", "-m 0"), ("view", "--project-shape 1"), ("fold", "-"), ("fold", "--fill nan -O npy"), ("stat", "-s sum,s,pi")] {
+            out.push(format!("pn.any\t{cmd}\t{args}\t{}", hex(&file)));
+        }
+    }
+    for input in ["#SHAPE=<>\n7\n", "#SHAPE=<>\n\n", "#SHAPE=</>\n7\n", "#SHAPE=< >\n7\n"] {
+        for k in stat::KINDS { out.push(format!("pn.any\tstat\t-s {k}\t{}", hex(input.as_bytes()))); }
+        for (cmd, args) in [("view", "-"), ("view", "-O npy"), ("fold", "-"), ("view", "--mask-monomorphic")] { out.push(format!("pn.any\t{cmd}\t{args}\t{}", hex(input.as_bytes()))); }
+    }
     // npy headers with huge axes / long headers
     {
         let mut many_axes = String::from("#SHAPE=<"); many_axes.push_str(&vec!["1"; if t { 22000 } else { 300 }].join("/")); many_axes.push_str(">\n7\n");
